@@ -57,11 +57,12 @@ class C15(Engine):
     thorough_budget = 1200
     variants = ("small",)
     rule = ("run i = batch of 16 cases; case = (one of the 15 simulators, 64-byte code window whose first opcode unit is stratified over "
-            "all 256 byte values / a seeded 16-bit value, seeded operands, a data window at an address-space edge, registers set only "
+            "all 256 byte values / a seeded 16-bit value - a quarter of the cases start from a real encoding of the instruction corpus, as "
+            "assembled or with one operand bit or byte changed -, seeded operands, a data window at an address-space edge, registers set only "
             "through set_reg/push/set_pc/reset with boundary-biased values, 0-20 prefix steps) executed as one step in variants: fresh "
             "object under two different heap fills, same state after an unrelated history of 0-50 steps of another program + reset, and "
             "a free-running run() with a SIGINT planned at the k-th usleep of the simulated clock.  Monitors: ASan/UBSan, return of "
-            "control inside the CPU budget, no page outside twice the architectural address space, equal results for variants whose "
+            "control inside the CPU budget, no page outside the architectural address space, equal results for variants whose "
             "pre-step snapshots are equal, run() returning without another instruction after SIGINT.  Distinct = distinct case transcript "
             "hash; non-trivial = the case executed (return value 0) in at least two variants with equal starting snapshots.")
     assumptions = ["register state is observed through dump_registers() and a hash of the Memory pages (plus a second step so that hidden state surfaces); internal fields are never poked",
